@@ -585,7 +585,8 @@ class _Gen(object):
         r = self.rng
         before = len(steps)
         self._matrix_one(steps)
-        mut = [s for s in steps[before:] if s.get('op') in ('setitem:', 'setattr:rows', 'setattr:cols', 'f:swap_row')]
+        mut = [s for s in steps[before:] if s.get('op') in ('setitem:', 'setattr:rows', 'setattr:cols', 'f:swap_row')
+               and 'k' not in s['args'][0]]
         if mut and r.random() < 0.7:
             obj = json.loads(json.dumps(mut[0]['args'][0]))
             def dec():
@@ -651,6 +652,21 @@ class _Gen(object):
                 key = {'t': 'tuple', 'v': [{'t': 'slice', 'v': [None, None]}, I(i)]}
                 val = catalogue.mat_spec(r, n, 1) if r.random() < 0.6 else {'t': 'frac', 'v': [r.randint(-40, 40), 2]}
             steps.append({'kind': 'call', 'actor': 'mp', 'op': 'setitem:', 'args': [obj, key, val], 'id': self.new_id()})
+        elif c < 0.915:
+            # the caller edits the decomposition it was handed (its own object, it may think), then asks again
+            d = {'kind': 'call', 'actor': 'mp', 'op': 'f:LU_decomp', 'args': [obj], 'id': self.new_id()}
+            steps.append(d)
+            i, j = r.randint(0, n - 1), r.randint(0, n - 1)
+            if r.random() < 0.7 or n < 3:
+                steps.append({'kind': 'call', 'actor': 'mp', 'op': 'setitem:', 'id': self.new_id(),
+                              'args': [{'t': 'obj', 'i': d['id'], 'k': 0}, {'t': 'tuple', 'v': [I(i), I(j)]},
+                                       {'t': 'frac', 'v': [r.randint(-60, 60), r.choice([1, 2, 4])]}]})
+            else:
+                steps.append({'kind': 'call', 'actor': 'mp', 'op': 'setitem:', 'id': self.new_id(),
+                              'args': [{'t': 'obj', 'i': d['id'], 'k': 1}, I(r.randint(0, n - 2)), I(r.randint(0, n - 1))]})
+            op = r.choice(['f:LU_decomp', 'f:lu', 'f:LU_decomp'])
+            steps.append({'kind': 'call', 'actor': 'mp', 'op': op, 'args': [json.loads(json.dumps(obj))], 'id': self.new_id(),
+                          'key': 'mat_' + op[2:], 'judge': True, 'tol': 16, 'exact': False, 'rel': 'hist', 'group': 'matrix'})
         elif c < 0.93:
             # decomposition that overwrites a *copy* made for the purpose, then the original is used again
             cp = {'kind': 'call', 'actor': 'mp', 'op': 'm:copy', 'args': [obj], 'id': self.new_id()}
